@@ -724,6 +724,17 @@ def load_corpus(pid, sub=None):
     return res
 
 
+def apply_ctx_zoo(spec, cases, rng):
+    """Specs with ctx_zoo = True: two thirds of the generated scenarios get cfg["ctxseed"], which makes the harness
+    create their contexts from the zoo (cancelled with a cause; a context type of its own ending with DeadlineExceeded;
+    plain WithCancel) instead of WithCancel only. The models are indifferent to the kind of context."""
+    if getattr(spec, "ctx_zoo", False):
+        for c in cases:
+            if rng.random() < 0.67:
+                c.setdefault("cfg", {}).setdefault("ctxseed", rng.randrange(700))
+    return cases
+
+
 THOROUGH_ROUNDS = int(os.environ.get("VERIF_THOROUGH_ROUNDS", 8))
 
 
@@ -777,7 +788,7 @@ def _seq_differential_once(ctx, spec, exe, proofs_ok, tag, scale, with_corpus, e
     part = {}
     ctx.coverage.setdefault("parts", {})[tag] = part
     corpus = [dict(c) for c in load_corpus(ctx.pid, ctag or tag)] if with_corpus else []
-    cases = corpus + (cases_override if cases_override is not None else spec.gen(ctx.rng, gen_tier or ctx.tier, scale))
+    cases = corpus + (cases_override if cases_override is not None else apply_ctx_zoo(spec, spec.gen(ctx.rng, gen_tier or ctx.tier, scale), ctx.rng))
     if limit is not None:
         cases = cases[:limit]
     for i, c in enumerate(cases):
@@ -879,7 +890,8 @@ def _seq_differential_once(ctx, spec, exe, proofs_ok, tag, scale, with_corpus, e
         # failing-input search: the oracle already ran on every case of this run and found nothing for this case;
         # escalate with fresh cases (oracle only, cheap) before giving up
         found = None
-        extra = spec.gen(random.Random(ctx.seed + 7919), gen_tier or ctx.tier, scale * 4)
+        erng = random.Random(ctx.seed + 7919)
+        extra = apply_ctx_zoo(spec, spec.gen(erng, gen_tier or ctx.tier, scale * 4), erng)
         for i, c in enumerate(extra):
             c["id"] = i
         # (a run with a special environment, e.g. patience mode, takes seconds per scenario: the search then runs the
@@ -952,7 +964,7 @@ def patience_part(ctx, spec, exe, proofs_ok, tag=None, ncases=32, ms=None):
     tag = tag or spec.component
     ms = ms or PATIENCE_MS
     rng = random.Random(ctx.seed * 31 + 5)
-    cand = spec.gen(rng, "quick", 1.0)
+    cand = apply_ctx_zoo(spec, spec.gen(rng, "quick", 1.0), rng)
     for i, c in enumerate(cand):
         c["id"] = i
     obs, err = run_runner(exe, spec.component, cand, procs=NPROC)
